@@ -20,6 +20,7 @@ from acnportal.algorithms import BaseAlgorithm
 from acnportal.contrib.acnsim.network.stochastic_network import StochasticNetwork
 
 from core import impl as I
+from core.common import f2b, b2f, close
 
 ID = "C19"
 LEAN_MODULES = ["AcnProofs.C19"]
@@ -30,6 +31,7 @@ REQUIRED_THEOREMS = [
     "Acn.C19.all_gone_at_end", "Acn.C19.stale_unplug_noop", "Acn.C19.deterministic_given_choices",
     "Acn.C19.wellFormed_protocol", "Acn.C19.starvation_free", "Acn.C19.all_gone_after_horizon",
     "Acn.C19.eventCore_history_wellFormed", "Acn.C19.end_to_end", "Acn.C19.end_to_end_properties",
+    "Acn.C19.end_to_end_ledger_partial",
 ]
 BUDGET = {"quick": 2500, "thorough": 15000, "search": 12000}
 TRUSTED = ["heapq: in the history-level model the order among equal keys is taken from the implementation's own "
@@ -349,6 +351,11 @@ def model_request(case, obs):
                      for s in case["sessions"]],
         "events": [{"ts": t, "kind": k, "sess": x} for t, k, x in obs["events"]],
         "full": fulls, "choices": obs["choices"],
+        # composed model with fully_charged COMPUTED from an energy ledger (what the harness' scheduler and
+        # the ideal battery do: 32 A * 208 V for one period to every plugged-in EV that is not yet full)
+        "ledger": {"req": [{"id": s["id"], "kwh": f2b(I.num(s["kwh"]))} for s in case["sessions"]],
+                   "per_period": f2b((32.0 * VOLT) / 1000 * (PERIOD / 60)), "eps": f2b(1e-3),
+                   "mode": case.get("sched", "gen")},
     }
 
 
@@ -428,6 +435,23 @@ def compare(case, obs, model):
     _cmp_snap(obs["final"], lp["final"], "composed loop final", out, blank_none=True)
     if lp["final"]["draws"] != len(obs["choices"]):
         out.append(f"composed loop: random.choice calls impl={len(obs['choices'])} model={lp['final']['draws']}")
+    # ... and with fully_charged computed by the model's own energy ledger (no `full` input at all)
+    ll = model.get("loop_ledger")
+    if ll is not None:
+        if ll["err"] != obs["err"]:
+            out.append(f"ledger loop: error impl={obs['err']} model={ll['err']}")
+        if [list(e) for e in ll["events"]] != [list(e) for e in obs["events"]]:
+            out.append(f"ledger loop: event_history impl={obs['events']} model={ll['events']}")
+        if len(posts) != len(ll["periods"]):
+            out.append(f"ledger loop: periods impl={len(posts)} model={len(ll['periods'])}")
+        for t, (a, m) in enumerate(zip(posts, ll["periods"])):
+            _cmp_snap(a, m, f"ledger loop period {t}", out, blank_none=True)
+            if len(out) > 8:
+                break
+        _cmp_snap(obs["final"], ll["final"], "ledger loop final", out, blank_none=True)
+        for x, bits in ll["delivered"]:
+            if not close(obs["delivered"][x], b2f(bits)):
+                out.append(f"ledger loop: energy delivered to {x} impl={obs['delivered'][x]} model={b2f(bits)}")
     return out
 
 
